@@ -9,7 +9,7 @@ from .. import anchors as A
 from ..consteval import try_fold
 from ..dectree import decide
 from ..envelopes import ENVELOPE_CLASSES, envelope_call
-from ..model import AnalysisError, ClassInfo, FuncInfo, Project, call_name, kwarg, walk_local
+from ..model import AnalysisError, ClassInfo, FuncInfo, Project, call_name, kwarg, resolved_call_name, walk_local
 from ..models import ModelTable
 from ..paths import PState, PathAnalysis, relevance_filter, run_paths, subst_text
 from ..report import Report
@@ -221,8 +221,8 @@ def check(P: Project, R: Report) -> None:
             for c in walk_local(f.node):
                 if not isinstance(c, ast.Call):
                     continue
-                nm = call_name(c)
-                is_dump = nm.endswith(".model_dump") or nm.endswith(".model_dump_json") or nm in ("model_dump_json_method", "model_dump_method")
+                nm = resolved_call_name(f.node, c)
+                is_dump = nm.endswith(".model_dump") or nm.endswith(".model_dump_json")
                 if not is_dump:
                     continue
                 # only sites that serialise the outgoing message object
